@@ -77,12 +77,15 @@ class LaTeXRenderer(BaseRenderer):
     def render_escape_sequence(self, token):
         return self.render_inner(token)
 
+    # escaped in a single pass, so that the braces of an escape image are not escaped again
+    _text_escapes = str.maketrans({
+        '\\': '\\textbackslash{}',
+        '$': '\\$', '#': '\\#', '{': '\\{', '}': '\\}',
+        '&': '\\&', '_': '\\_', '%': '\\%', '^': '\\^{}',
+    })
+
     def render_raw_text(self, token, escape=True):
-        return (token.content.replace('$', '\\$').replace('#', '\\#')
-                             .replace('{', '\\{').replace('}', '\\}')
-                             .replace('&', '\\&').replace('_', '\\_')
-                             .replace('%', '\\%').replace('^', '\\^{}')
-               ) if escape else token.content
+        return token.content.translate(self._text_escapes) if escape else token.content
 
     def render_heading(self, token):
         inner = self.render_inner(token)
